@@ -4,9 +4,14 @@ import Driver.Proto
 /-
 Streams of C12.
   c12.serve   stack  path  ae  inner
-      stack = comma list of the directives present in the site (any order; the real chain is
-              ordered by casket): limits request_id log rewrite gzip header errors:<plain|page404|visible>
-              status mime internal templates
+      stack = comma list of tokens: the site as it is WRITTEN (the real chain is ordered by casket).
+              A bare directive name is its default one-line spelling: limits request_id log rewrite gzip
+              header errors:<plain|page404|visible> status mime internal templates.
+              `name=<line>|<line>…` gives the lines of a directive as written, in order:
+                log=<scope|->~<out>~<fmt|->[~x]   header=<scope>~<i|d|b|p>   gzip=<not-path|->~<level|->
+                errors=<-|v|logname>~<-|404>      templates=<path|->~<ext>~<form>
+              addr2a addr2b decoyF decoyL: layout of the Casketfile (two addresses, a second site) — no meaning.
+              The model computes the MEANING of the lines for the request path (`Site.cfg`).
       path  = html | bin | html-head | bin-head  (…-head: the request method is HEAD)
       ae    = 1 | 0 (Accept-Encoding: gzip sent)
       inner = ret:<s>:<0|1>[:<n>] | panic[:<n>]  (n informational 1xx headers first) | write:<s|->:<hex>:<0|1>:<kind>:<cl 0|1>:<mode> | file:<kind>:<hex>
@@ -30,16 +35,78 @@ def parseMode : String → Option ErrMode
   | "visible" => some .visible
   | _ => none
 
-def parseStack (s : String) : Option Cfg :=
-  let parts := if s = "" then [] else s.splitOn ","
-  let errs := parts.filter (·.startsWith "errors:")
-  let mode : Option (Option ErrMode) := match errs with
-    | [] => some none
-    | [e] => (parseMode (e.drop 7).toString).map some
-    | _ => none
-  mode.map fun m =>
-    { log := parts.contains "log", gzip := parts.contains "gzip", header := parts.contains "header",
-      errors := m, templates := parts.contains "templates" }
+def optField (s : String) : Option String := if s = "-" then none else some s
+
+/-- `log=<scope>~<out>~<fmt>[~x]` (x: the line has a block with `except` / `ipmask`, no meaning here) -/
+def parseLogLine (l : String) : Option LogLine :=
+  match l.splitOn "~" with
+  | [sc, out, fmt] => some ⟨optField sc, out, optField fmt⟩
+  | [sc, out, fmt, "x"] => some ⟨optField sc, out, optField fmt⟩
+  | _ => none
+
+def parseHeaderLine (l : String) : Option HeaderLine :=
+  match l.splitOn "~" with
+  | [sc, "i"] => some ⟨sc, 1⟩
+  | [sc, "d"] => some ⟨sc, 1⟩
+  | [sc, "b"] => some ⟨sc, 2⟩
+  | [sc, "p"] => some ⟨sc, 2⟩
+  | _ => none
+
+def parseGzipLine (l : String) : Option GzipLine :=
+  match l.splitOn "~" with
+  | [np, lv] => some ⟨(optField np).toList, (optField lv).bind String.toNat?⟩
+  | _ => none
+
+def parseErrLine (l : String) : Option ErrLine :=
+  match l.splitOn "~" with
+  | [a, pg] =>
+    let arg : ErrArg := if a = "-" then .none else if a = "v" then .visible else .logFile a
+    if pg = "-" then some ⟨arg, []⟩ else pg.toNat?.map fun n => ⟨arg, [n]⟩
+  | _ => none
+
+def parseTplLine (l : String) : Option TplLine :=
+  match l.splitOn "~" with
+  | [pa, _ext, _form] => some ⟨(optField pa).getD "/"⟩
+  | _ => none
+
+/-- directives and layout tokens that have no meaning for the response of the probe requests -/
+def noMeaning : List String :=
+  ["limits", "request_id", "rewrite", "status", "mime", "internal", "addr2a", "addr2b", "decoyF", "decoyL"]
+
+def emptySite (loaded : Bool) : Site :=
+  { log := [], gzip := [], header := [], errors := [], templates := [], loaded := loaded }
+
+/-- one token of the stack field: the lines of a directive as written, or its default spelling -/
+def addToken (s : Site) (tok : String) : Option Site :=
+  match tok.splitOn "=" with
+  | [name] =>
+    if name = "log" then (if s.log.isEmpty then some { s with log := [⟨some "/", "a", none⟩] } else none)
+    else if name = "gzip" then (if s.gzip.isEmpty then some { s with gzip := [⟨[], none⟩] } else none)
+    else if name = "header" then (if s.header.isEmpty then some { s with header := [⟨"/", 2⟩] } else none)
+    else if name = "templates" then (if s.templates.isEmpty then some { s with templates := [⟨"/"⟩] } else none)
+    else if name.startsWith "errors:" then
+      (if !s.errors.isEmpty then none
+       else match parseMode (name.drop 7).toString with
+        | some .plain => some { s with errors := [⟨.logFile "a", []⟩] }
+        | some .page404 => some { s with errors := [⟨.logFile "a", [404]⟩] }
+        | some .visible => some { s with errors := [⟨.visible, []⟩] }
+        | none => none)
+    else if noMeaning.contains name then some s
+    else none
+  | [name, lines] =>
+    let ls := lines.splitOn "|"
+    if name = "log" then (if s.log.isEmpty then (ls.mapM parseLogLine).map fun x => { s with log := x } else none)
+    else if name = "gzip" then (if s.gzip.isEmpty then (ls.mapM parseGzipLine).map fun x => { s with gzip := x } else none)
+    else if name = "header" then (if s.header.isEmpty then (ls.mapM parseHeaderLine).map fun x => { s with header := x } else none)
+    else if name = "errors" then (if s.errors.isEmpty then (ls.mapM parseErrLine).map fun x => { s with errors := x } else none)
+    else if name = "templates" then
+      (if s.templates.isEmpty then (ls.mapM parseTplLine).map fun x => { s with templates := x } else none)
+    else none
+  | _ => none
+
+def parseSite (loaded : Bool) (st : String) : Option Site :=
+  let parts := if st = "" then [] else st.splitOn ","
+  (parts.foldlM addToken (emptySite loaded)).bind fun s => if s.modelled then some s else none
 
 def parseOptNat (s : String) : Option (Option Nat) :=
   if s = "-" then some none else s.toNat?.map some
@@ -67,21 +134,35 @@ def parseInner (s : String) : Option (Nat × Inner) :=
   | _ => none
 
 structure Case where
-  cfg : Cfg
+  site : Site        -- the configuration as written
+  path : String      -- the request path
   req : Req
   infos : Nat        -- informational headers the innermost handler sends first
   inner : Inner      -- what the innermost handler does for this request
 
-def parseCase : List String → Option Case
+/-- the meaning of the site for this request -/
+def Case.cfg (c : Case) : Cfg := c.site.cfg c.path
+
+/-- the request path of a case: /x.<ext> for the scripted probe, /f-<kind>.<ext> for a file -/
+def casePath (p : String) (i : String) : String :=
+  let ext := if p.startsWith "html" then ".html" else ".bin"
+  match i.splitOn ":" with
+  | ["file", k, _] => "/f-" ++ k ++ ext
+  | _ => "/x" ++ ext
+
+def parseCaseL (loaded : Bool) : List String → Option Case
   | [st, p, ae, i] => do
     let head := p.endsWith "-head"
     let (n, gi) ← parseInner i
     -- the static file server answers a HEAD request with the header only (http.ServeContent):
     -- Content-Length set, nothing written
     let mi := if head && i.startsWith "file:" then Inner.write (some 200) [] false .plain true else gi
-    pure { cfg := ← parseStack st, req := { html := p.startsWith "html", ae := ae == "1", head := head },
+    pure { site := ← parseSite loaded st, path := casePath p i,
+           req := { html := p.startsWith "html", ae := ae == "1", head := head },
            infos := n, inner := mi }
   | _ => none
+
+def parseCase : List String → Option Case := parseCaseL true
 
 def showChunk : Chunk → String
   | .inner b => "inner:" ++ Driver.hex b
@@ -134,7 +215,7 @@ def parseBody (s : String) : Option (List (Chunk × Bool)) :=
 def serveModel (f : List String) : String :=
   match parseCase f with
   | none => "bad-case"
-  | some c => showResp c.req.head (serveWire c.cfg c.req c.infos c.inner) ++ " ok"
+  | some c => showResp c.req.head (siteServeWire c.site c.path c.req c.infos c.inner) ++ " ok"
 
 def serveJudge (f : List String) (out : String) : String :=
   if out.startsWith "PANIC:" then "bad:not-contained:a panic escaped Server.ServeHTTP"
@@ -161,7 +242,7 @@ def liveModel (f : List String) : String :=
   match parseCase f with
   | none => "bad-case"
   | some c =>
-    let r := serveWire c.cfg c.req c.infos c.inner
+    let r := siteServeWire c.site c.path c.req c.infos c.inner
     let clok := clOK r || bodiless c.req.head r.status
     s!"{if r.status = 0 then 200 else r.status} {if clok then "ok" else "!"} {showBody r.body} ok ok"
 
@@ -187,12 +268,12 @@ def liveJudge (f : List String) (out : String) : String :=
 
 /-- c12.chain: the same cases on a chain assembled through the httpserver API from the
 directives' own setup functions — no Casketfile, so no `errors` is added next to `gzip` -/
-def noInject (f : List String) : Option Case := (parseCase f).map fun c => { c with cfg := { c.cfg with inject := false } }
+def noInject (f : List String) : Option Case := parseCaseL false f
 
 def chainModel (f : List String) : String :=
   match noInject f with
   | none => "bad-case"
-  | some c => showResp c.req.head (serveWire c.cfg c.req c.infos c.inner) ++ " ok"
+  | some c => showResp c.req.head (siteServeWire c.site c.path c.req c.infos c.inner) ++ " ok"
 
 def chainJudge (f : List String) (out : String) : String :=
   if out.startsWith "PANIC:" then "bad:not-contained:a panic escaped Server.ServeHTTP"
